@@ -129,6 +129,7 @@ type sess struct {
 	eof     bool
 	rerr    bool
 
+	intrTotal  int
 	closedSeen bool
 	qAtClose   int
 	dead       bool
@@ -946,6 +947,7 @@ func exec(e *lp.Exec) {
 			key.WriteString("E,")
 		case "intr":
 			k, _ := strconv.Atoi(f[1])
+			s.intrTotal += k
 			s.v.SetRead(false, 0, k)
 			s.state(e, "intr")
 			key.WriteString("I,")
@@ -1011,7 +1013,13 @@ func exec(e *lp.Exec) {
 				continue
 			}
 			steps := 0
-			bound := 16 + 4*(s.q()/s.rbs+1)
+			// generous for a terminating task: a few steps per buffer-full (stream) or per datagram, plus every
+			// EINTR ever scripted in this case
+			units := s.q()/s.rbs + 1
+			if s.typ == "udp" {
+				units = s.q() + 1
+			}
+			bound := 16 + 4*(units+s.intrTotal)
 			spun := false
 			for s.firstAlive() != nil && !s.held {
 				if steps >= bound {
